@@ -22,9 +22,10 @@ import math
 import os
 import random
 import re
+import sys
 from fractions import Fraction
 
-from . import common
+from . import common, c13_tie
 from .common import lst, rlit
 
 HEADER = """From Coq Require Import Reals List.
@@ -1023,7 +1024,51 @@ def emit(ctx, cases):
             n += len(ls)
     if cur:
         shards.append((ctx.new_shard(HEADER + "\n" + "\n".join(cur)), idxs))
+    source_tie(ctx)
     return shards
+
+
+# ------------------------------------------------------------------------------------------------
+# second tie: the current source translated to Gallina and proved equal to the model (c13_tie.py)
+# ------------------------------------------------------------------------------------------------
+def source_tie(ctx):
+    """Runs after the Coq build (emit is only called when it succeeded).  A broken source tie alone is no
+    alarm: it is recorded in coverage.source_tie; run() adds it to ctx.broken only when the behavioural
+    correspondence or the oracle report a violation as well."""
+    try:
+        tie = c13_tie.run(ctx, common.REPO)
+    except Exception as ex:      # optional evidence; never let it abort the check
+        tie = {"translated": [], "lemmas_ok": False, "lemmas": [], "not_tied": {"all": repr(ex)},
+               "detail": f"SOURCE TIE BROKEN: c13_tie aborted: {type(ex).__name__}: {ex}"}
+    ctx.cov["source_tie"] = tie
+    for sec in tie.get("not_tied", {}):
+        ctx.hist("T.source_tie_broken." + sec)
+    ctx.hist("T.source_tie_lemmas", len(tie.get("lemmas", [])))
+    ctx.extra_tb = getattr(ctx, "extra_tb", []) + [
+        "source tie (advisory): tools/py2gallina_c13.py (fail-closed Python-ast -> Gallina translator; tau2 kernel: every number is a "
+        "real number, float literals are the decimal fractions written, @ is dot / matvec / vecmat on lists, group.value_from(model_state, "
+        "key) is the function's parameter for that key, jax.random.gamma is an oracle parameter; discrete kernel: the model object is a "
+        "state of the graph machine of Graph.v threaded through the statements, model.state = / the flag loop / vars[name].value = / "
+        "update(names) / log_prob are restore / clear_flags / Assign / Update / value, jax.vmap is an all-or-nothing map, "
+        "jax.random.categorical is an oracle parameter) and the statements of the lemmas in harness/lv/c13_tie.py; result of this run in "
+        "coverage.source_tie"]
+
+
+def run(ctx):
+    orig_finish = ctx.finish
+
+    def finish(*a, **k):
+        tie = ctx.cov.get("source_tie")
+        if tie is None:
+            ctx.cov["source_tie"] = {"translated": [], "lemmas_ok": False, "detail": "not attempted: the Coq build failed"}
+        elif not tie.get("lemmas_ok") and ctx.violations:
+            # the behavioural part / the oracle disagree too: name the broken source tie in the replay files
+            for sec, why in tie.get("not_tied", {}).items():
+                if not why.startswith("needs "):
+                    ctx.broken.append(f"source tie [{sec}]: {why}"[:400])
+        return orig_finish(*a, **k)
+    ctx.finish = finish
+    return common.run_standard(ctx, sys.modules[__name__])
 
 
 def diagnose(ctx, path, idxs, cases):
